@@ -257,7 +257,7 @@ Definition r_dual (lam : nat) (d : string) (F G : sig) : option sig :=
   else if String.eqb d "since" then Some (s_since F G)
   else if String.eqb d "trigger" || String.eqb d "triggers" then Some (s_trigger F G)
   else if String.eqb d "until" then Some (s_until lam F G)
-  else if String.eqb d "release" || String.eqb d "releases" then Some (s_release lam F G)
+  else if String.eqb d "releases" then Some (s_release lam F G)
   else if String.eqb d "precede" then Some (s_precede F G)
   else if String.eqb d "follow" then Some (s_follow lam F G)
   else None.
